@@ -377,6 +377,7 @@ func TestHarness(t *testing.T) {
 		nontrivialRule = "a queue pick was judged against the documented fair order (drv_fair) whose walk passed an invocation with at least two candidates (queued operations or queued children)"
 	}
 	res := hx.NewResult("sched", o, "random segment histories of Execute/WaitExecution/Synchronize/KillOperations/AddDrain/RemoveDrain/TerminateWorkers/cancellations/clock jumps against the real InMemoryBuildQueue (1-3 predeclared queues with 1-3 size classes, worker-created queues, nested instance name prefixes, <=6 workers, 4 digests, invocation depth <=2, stickiness limit lists of length 0-2, 4 expected-duration classes), followed by a quiescence phase; non-trivial = "+nontrivialRule+"; distinct = hash of the op list")
+	startWatchdog(res, o)
 	drv, err := hx.StartDriver("sched")
 	if err != nil {
 		t.Fatalf("cannot start model driver: %v", err)
